@@ -524,6 +524,190 @@ def gen_actval(repo):
 
 GENERATORS["ActValGen"] = gen_actval
 
+# ---------------------------------------------------------------------------------------------------------------------------
+# uses_storage_type of every schedule class: regenerated as a function of the attributes it reads (the values those attributes
+# get in __init__ -- a constant, a constructor parameter, or what a subclass hands to super().__init__ -- are read off the
+# source as well) and proved equal to the corresponding branch of Sched.uses.
+STS = ("RAM", "DISK", "WORK", "NONE")
+
+
+def _is_st_const(e):
+    return isinstance(e, ast.Attribute) and isinstance(e.value, ast.Name) and e.value.id == "StorageType" and e.attr in STS
+
+
+def _self_attr(e):
+    return e.attr if isinstance(e, ast.Attribute) and isinstance(e.value, ast.Name) and e.value.id == "self" else None
+
+
+class Uses:
+    """uses_storage_type(self, storage_type): attrs maps an attribute name to (gallina name, kind) with kind in 'st', 'z', 'oz'"""
+
+    def __init__(self, attrs, param):
+        self.attrs, self.param = attrs, param
+
+    def st(self, e):
+        if isinstance(e, ast.Name) and e.id == self.param:
+            return "x"
+        if _is_st_const(e):
+            return e.attr
+        a = _self_attr(e)
+        if a in self.attrs and self.attrs[a][1] == "st":
+            return self.attrs[a][0]
+        raise Untranslatable("storage expression " + ast.dump(e)[:80])
+
+    def b(self, e, bound=None):
+        bound = bound or {}
+        if isinstance(e, ast.Constant) and isinstance(e.value, bool):
+            return "true" if e.value else "false"
+        if isinstance(e, ast.Compare) and len(e.ops) == 1:
+            op, l, r = e.ops[0], e.left, e.comparators[0]
+            if isinstance(op, ast.Eq):
+                return "st_eqb %s %s" % (self.st(l), self.st(r))
+            if isinstance(op, ast.In) and isinstance(r, ast.Set) and r.elts:
+                return "(" + " || ".join("st_eqb %s %s" % (self.st(l), self.st(x)) for x in r.elts) + ")"
+            if type(op) in CMP and isinstance(r, ast.Constant) and isinstance(r.value, int) and not isinstance(r.value, bool):
+                a = _self_attr(l)
+                if a in bound:
+                    return "(%s %s %d)" % (bound[a], CMP[type(op)], r.value)
+                if a in self.attrs and self.attrs[a][1] == "z":
+                    return "(%s %s %d)" % (self.attrs[a][0], CMP[type(op)], r.value)
+        if isinstance(e, ast.BoolOp) and isinstance(e.op, ast.Or) and len(e.values) == 2:
+            t = e.values[0]
+            a = _self_attr(t.left) if isinstance(t, ast.Compare) and len(t.ops) == 1 and isinstance(t.ops[0], ast.Is) else None
+            if a in self.attrs and self.attrs[a][1] == "oz" and isinstance(t.comparators[0], ast.Constant) and t.comparators[0].value is None:
+                v = self.attrs[a][0]
+                return "match %s with None => true | Some %s' => %s end" % (v, v, self.b(e.values[1], dict(bound, **{a: v + "'"})))
+        raise Untranslatable("boolean expression " + ast.dump(e)[:100])
+
+    def block(self, stmts):
+        if not stmts:
+            return "UNoneVal"                       # falling off the end returns None
+        s, rest = stmts[0], stmts[1:]
+        if isinstance(s, ast.Assert):
+            t = s.test                              # `assert storage_type in StorageType`: true of all four members
+            if (isinstance(t, ast.Compare) and len(t.ops) == 1 and isinstance(t.ops[0], ast.In) and isinstance(t.left, ast.Name) and t.left.id == self.param
+                    and isinstance(t.comparators[0], ast.Name) and t.comparators[0].id == "StorageType"):
+                return self.block(rest)
+            raise Untranslatable("assert " + ast.dump(t)[:80])
+        if isinstance(s, ast.Return):
+            if s.value is None:
+                return "UNoneVal"
+            return "ub (%s)" % self.b(s.value)
+        if isinstance(s, ast.If):
+            return "if %s then %s else %s" % (self.b(s.test), self.block(s.body + rest), self.block(s.orelse + rest))
+        raise Untranslatable("statement " + ast.dump(s)[:80])
+
+
+def _uses_method(cdef):
+    f = _methods(cdef).get("uses_storage_type")
+    if f is None or len(f.args.args) != 2 or f.args.args[0].arg != "self" or f.decorator_list:
+        raise Untranslatable("%s.uses_storage_type(self, storage_type)" % cdef.name)
+    return f, f.args.args[1].arg
+
+
+def _init_assigns(cdef):
+    """{attribute: value expression} for the top-level `self.a = e` statements of __init__ (last one wins), and the super().__init__ call"""
+    f = _methods(cdef).get("__init__")
+    if f is None:
+        raise Untranslatable("%s.__init__" % cdef.name)
+    out, sup = {}, None
+    for st in f.body:
+        if isinstance(st, ast.Assign) and len(st.targets) == 1 and _self_attr(st.targets[0]):
+            out[_self_attr(st.targets[0])] = st.value
+        for n in ast.walk(st):
+            if isinstance(n, ast.Call) and isinstance(n.func, ast.Attribute) and n.func.attr == "__init__" and isinstance(n.func.value, ast.Call) \
+                    and isinstance(n.func.value.func, ast.Name) and n.func.value.func.id == "super":
+                sup = n
+    return f, out, sup
+
+
+def gen_observers(repo):
+    def classes_of(fn):
+        tree = ast.parse(open(os.path.join(repo, "checkpoint_schedules", fn)).read())
+        return {c.name: c for c in ast.walk(tree) if isinstance(c, ast.ClassDef)}
+    bs, ms, mx, tl, hr = (classes_of(f) for f in ("basic_schedules.py", "multistage.py", "mixed.py", "twolevel_binomial.py", "hrevolve.py"))
+    out = ["(* GENERATED by harness/translate.py from the uses_storage_type methods of checkpoint_schedules (and the __init__ assignments of the",
+           "   attributes they read) -- do not edit *)",
+           "From Coq Require Import ZArith Bool List.", "From CS Require Import Actions Online Multistage Mixed RevConv Sched.", "Open Scope Z_scope.", ""]
+    PROOF = "Proof. intros; repeat match goal with x : storage |- _ => destruct x end; cbn; rewrite ?Z.gtb_ltb; reflexivity. Qed."
+
+    def need(d, name):
+        if name not in d:
+            raise Untranslatable("class %s not found" % name)
+        return d[name]
+
+    def const_attr(cdef, attr):
+        _, asg, _ = _init_assigns(cdef)
+        if attr not in asg or not _is_st_const(asg[attr]):
+            raise Untranslatable("%s.__init__ does not set self.%s to a StorageType constant" % (cdef.name, attr))
+        return asg[attr].attr
+
+    def param_attr(cdef, attr, pname):
+        _, asg, _ = _init_assigns(cdef)
+        if attr not in asg or not (isinstance(asg[attr], ast.Name) and asg[attr].id == pname):
+            raise Untranslatable("%s.__init__ does not set self.%s = %s" % (cdef.name, attr, pname))
+    # --- basic classes
+    c = need(bs, "NoneCheckpointSchedule"); f, p = _uses_method(c)
+    out += ["Definition uses_none_gen (x : storage) : ures := %s." % Uses({}, p).block(_strip_doc(f.body)),
+            "Lemma uses_none_is_model : forall o b x, Online.k o = KNone_ -> uses {| ob := OOnline o; started := b |} x = uses_none_gen x.",
+            "Proof. intros o b x H. unfold uses. cbn [ob]. rewrite H. destruct x; reflexivity. Qed.", ""]
+    c = need(bs, "SingleMemoryStorageSchedule"); f, p = _uses_method(c)
+    out += ["Definition uses_mem_gen (storage x : storage) : ures := %s." % Uses({"_storage": ("storage", "st")}, p).block(_strip_doc(f.body)),
+            "Lemma uses_mem_is_model : forall o b x, Online.k o = KMem -> uses {| ob := OOnline o; started := b |} x = uses_mem_gen %s x." % const_attr(c, "_storage"),
+            "Proof. intros o b x H. unfold uses. cbn [ob]. rewrite H. destruct x; reflexivity. Qed.", ""]
+    c = need(bs, "SingleDiskStorageSchedule"); f, p = _uses_method(c)
+    out += ["Definition uses_disk_gen (storage x : storage) : ures := %s." % Uses({"_storage": ("storage", "st")}, p).block(_strip_doc(f.body)),
+            "Lemma uses_disk_is_model : forall o b mv x, Online.k o = KDisk mv -> uses {| ob := OOnline o; started := b |} x = uses_disk_gen %s x." % const_attr(c, "_storage"),
+            "Proof. intros o b mv x H. unfold uses. cbn [ob]. rewrite H. destruct x; reflexivity. Qed.", ""]
+    # --- TwoLevel
+    c = need(tl, "TwoLevelCheckpointSchedule"); f, p = _uses_method(c)
+    param_attr(c, "_binomial_storage", "binomial_storage")
+    out += ["Definition uses_two_gen (binomial_storage x : storage) : ures := %s." % Uses({"_binomial_storage": ("binomial_storage", "st")}, p).block(_strip_doc(f.body)),
+            "Lemma uses_two_is_model : forall o b p bs bst tr x, Online.k o = KTwo p bs bst tr -> uses {| ob := OOnline o; started := b |} x = uses_two_gen bst x.",
+            "Proof. intros o b p bs bst tr x H. unfold uses. cbn [ob]. rewrite H. destruct x, bst; reflexivity. Qed.", ""]
+    # --- Multistage: the attributes are the recounted unit numbers (the model keeps them in the object)
+    c = need(ms, "MultistageCheckpointSchedule"); f, p = _uses_method(c)
+    param_attr(c, "_snapshots_in_ram", "snapshots_in_ram"); param_attr(c, "_snapshots_on_disk", "snapshots_on_disk")
+    out += ["Definition uses_multi_gen (ram disk : Z) (x : storage) : ures := %s." % Uses({"_snapshots_in_ram": ("ram", "z"), "_snapshots_on_disk": ("disk", "z")}, p).block(_strip_doc(f.body)),
+            "Lemma uses_multi_is_model : forall c s ram disk b x, uses {| ob := OMulti c s ram disk; started := b |} x = uses_multi_gen ram disk x.", PROOF, ""]
+    # --- Mixed
+    c = need(mx, "MixedCheckpointSchedule"); f, p = _uses_method(c)
+    param_attr(c, "_storage", "storage")
+    out += ["Definition uses_mixed_gen (storage x : storage) : ures := %s." % Uses({"_storage": ("storage", "st")}, p).block(_strip_doc(f.body)),
+            "Lemma uses_mixed_is_model : forall n s sg tab plan m fin b x, uses {| ob := OMixed n s sg tab plan m fin; started := b |} x = uses_mixed_gen sg x.",
+            "Proof. intros; repeat match goal with x : storage |- _ => destruct x end; reflexivity. Qed.", ""]
+    # --- Revolve family: one method in the base class; what each subclass hands to the base constructor as snapshots_on_disk
+    c = need(hr, "RevolveCheckpointSchedule"); f, p = _uses_method(c)
+    fi, asg, _ = _init_assigns(c)
+    if [a.arg for a in fi.args.args][:4] != ["self", "max_n", "snapshots_in_ram", "snapshots_on_disk"]:
+        raise Untranslatable("RevolveCheckpointSchedule.__init__ parameters")
+    param_attr(c, "_snapshots_in_ram", "snapshots_in_ram"); param_attr(c, "_snapshots_on_disk", "snapshots_on_disk")
+    out += ["Definition uses_rev_gen (ram : Z) (disk : option Z) (x : storage) : ures := %s." %
+            Uses({"_snapshots_in_ram": ("ram", "z"), "_snapshots_on_disk": ("disk", "oz")}, p).block(_strip_doc(f.body))]
+    for cls, kind in (("Revolve", "KRevolve"), ("DiskRevolve", "KDiskRevolve"), ("PeriodicDiskRevolve", "KPeriodic"), ("HRevolve", "KHRevolve")):
+        sc = need(hr, cls)
+        if "uses_storage_type" in _methods(sc):
+            raise Untranslatable("%s overrides uses_storage_type" % cls)
+        _, _, sup = _init_assigns(sc)
+        if sup is None or len(sup.args) < 3 or sup.keywords:
+            raise Untranslatable("%s.__init__: super().__init__ call" % cls)
+        a_ram, a_disk = sup.args[1], sup.args[2]
+        if not (isinstance(a_ram, ast.Name) and a_ram.id == "snapshots_in_ram"):
+            raise Untranslatable("%s hands %s to the base class as snapshots_in_ram" % (cls, ast.dump(a_ram)[:40]))
+        if isinstance(a_disk, ast.Constant) and a_disk.value is None:
+            d = "None"
+        elif isinstance(a_disk, ast.Constant) and isinstance(a_disk.value, int) and not isinstance(a_disk.value, bool):
+            d = "(Some %d)" % a_disk.value
+        elif isinstance(a_disk, ast.Name) and a_disk.id == "snapshots_on_disk":
+            d = "(Some disk)"
+        else:
+            raise Untranslatable("%s hands %s to the base class as snapshots_on_disk" % (cls, ast.dump(a_disk)[:40]))
+        out += ["Lemma uses_%s_is_model : forall n ram disk s b x, uses {| ob := ORevF %s n ram disk s; started := b |} x = uses_rev_gen ram %s x." % (cls.lower(), kind, d), PROOF]
+    return "\n".join(out) + "\n"
+
+
+GENERATORS["ObserversGen"] = gen_observers
+
 
 if __name__ == "__main__":
     repo = os.environ.get("VERIF_REPO", "/repo")
